@@ -122,6 +122,32 @@ int main(int argc, char **argv)
         int max = fam == 4 ? 40 : 48;
         for (int a = 0; a <= max; a++) for (int l = 0; l <= max; l++) shape(a, l, pat, (a <= 1 && (l <= 1 || l == 16 || l == 17)));
     }
+    /* long lengths: round trip, one forged tag bit, one flipped ciphertext bit in the last block, truncation by one byte */
+    {
+        static const size_t longs[] = {255, 256, 257, 1023, 1024, 1025, 4095, 4096, 4097, 65535, 65536, 65537};
+        uint8_t key[20], nonce[16]; uint8_t *ad = malloc(70000), *m = malloc(70000), *c = malloc(70100), *p = hx_buf(65537);
+        hx_fill(key, klen, pat, 1); hx_fill(nonce, 16, pat, 2); hx_fill(ad, 70000, pat, 3); hx_fill(m, 70000, pat, 4);
+        char kb[96];
+        for (unsigned i = 0; i < 12; i++) for (int which = 0; which < 2; which++) {
+            if (fam == 4 && alg != 0 && i > 5) continue;
+            size_t a = which ? longs[i] : 9, l = which ? 9 : longs[i], ml = 0;
+            do_enc(c, m, l, ad, a, nonce, key);
+            int r = do_dec(p, &ml, c, l + 16, ad, a, nonce, key); hx_stat("evaluations", 1);
+            snprintf(kb, sizeof kb, "%s:roundtrip", keybase);
+            if (r != 0 || ml != l || memcmp(p, m, l)) hx_fail(kb, "long lengths adlen=%zu mlen=%zu: round trip fails (result %d)", a, l, r);
+            snprintf(kb, sizeof kb, "%s:accepts-forgery:long", keybase);
+            c[l + 7] ^= 0x10; r = do_dec(p, &ml, c, l + 16, ad, a, nonce, key); c[l + 7] ^= 0x10; hx_stat("evaluations", 1); forged++;
+            if (r >= 0) hx_fail(kb, "forged tag accepted for adlen=%zu mlen=%zu", a, l);
+            c[l - 1] ^= 1; r = do_dec(p, &ml, c, l + 16, ad, a, nonce, key); c[l - 1] ^= 1; hx_stat("evaluations", 1); forged++;
+            if (r >= 0) hx_fail(kb, "modified last ciphertext byte accepted for adlen=%zu mlen=%zu", a, l);
+            ad[a - 1] ^= 1; r = do_dec(p, &ml, c, l + 16, ad, a, nonce, key); ad[a - 1] ^= 1; forged++;
+            if (r >= 0) hx_fail(kb, "modified last AD byte accepted for adlen=%zu mlen=%zu", a, l);
+            r = do_dec(p, &ml, c, l + 15, ad, a, nonce, key); forged++;
+            if (r >= 0) hx_fail(kb, "ciphertext truncated by one byte accepted for adlen=%zu mlen=%zu", a, l);
+            if (!hx_buf_ok(p, 65537)) hx_fail(kb, "wrote outside the plaintext buffer");
+        }
+        free(ad); free(m); free(c); hx_free(p);
+    }
     hx_stat("forgeries", forged);
     hx_sample("family=%s alg=%d pattern=%d: per shape round trip + every bit flip of ct/tag/ad/nonce/key + tag byte XORs + every truncation + extensions", famname[fam], alg, pat);
     hx_finish();
